@@ -122,7 +122,7 @@ fn cmd_check(prop: &str, tier: &str) -> i32 {
             // minimise, write the replay file
             let sig = v.sig();
             let (min, execs) = shrink(f, &cfg, rec.clone(), &sig);
-            match write_replay(&format!("{dir}/replays"), f, &cfg, seed, *run, &min, rec.len(), execs) {
+            match write_replay(&format!("{dir}/replays"), f, &cfg, seed, *run, &min, rec, v, execs) {
                 Ok((path, v2)) => {
                     println!("  violation {} [{}]: {}", v2.clause, v2.site, v2.message);
                     violation = Some((path, v2));
@@ -286,7 +286,17 @@ fn cmd_replay(path: &str) -> i32 {
         Some(a) => a.iter().map(|x| x.as_u64().unwrap_or(0)).collect(),
         None => return die(HarnessError(format!("{path}: no choices"))),
     };
-    let out = run_one(f, &cfg, Choices::replaying(choices), true);
+    let nondet = doc.get("nondeterministic").and_then(|x| x.as_bool()) == Some(true);
+    let mut out = run_one(f, &cfg, Choices::replaying(choices.clone()), true);
+    if nondet {
+        // recorded as depending on ambient state: allow several attempts
+        for _ in 0..50 {
+            if matches!(&out.result, Err(v) if v.sig() == want_sig) {
+                break;
+            }
+            out = run_one(f, &cfg, Choices::replaying(choices.clone()), true);
+        }
+    }
     if let Some(h) = out.harness_error {
         return die(HarnessError(h));
     }
